@@ -40,11 +40,11 @@ def single_target_cells(tier: str, seed: int) -> List[Dict[str, Any]]:
                         continue
                     for contraction in ((True, False) if (not quick or (oi + si) % 3 == 0) else (True,)):
                         if ltag == "M":
-                            cls_opts = ["mixed"] if quick else ["mixed", "pure", "degenerate"]
+                            cls_opts = ["mixed"] if quick else ["mixed", "pure", "degenerate", "classical"]
                         elif ltag == "L":
                             cls_opts = ["basis"]
                         else:
-                            cls_opts = ["pure"] if quick else ["pure", "neg", "product"]
+                            cls_opts = ["pure"] if quick else ["pure", "neg", "product", "ghz"]
                         for cls in cls_opts:
                             entries = ["self", "ce"] if fam == "Custom" else ["self", "env", "ce"]
                             for ei, entry in enumerate(entries):
